@@ -33,6 +33,9 @@ from sim.refmodel import aggregate, heuristics, pairs, sampler, stats, streaming
 from sim import workload as wlmod
 
 CKPT = 'ranking_checkpoint_tmp.tsv'
+# the monitored functions as imported from /repo, before any monitor wraps them (a long-lived simulated process
+# installs fresh monitors for every task it runs)
+_PRISTINE = {n: getattr(core_ranking, n) for n in ('compute_batch_ranking', 'mixed_rank_graph', 'prior_combinations_sample', 'estimate_importances_minibatches')}
 MI_HEURISTICS = {'MI', 'MI-numba-randomized', 'MI-numba-3mr', 'max-value-coverage', 'correlation-Pearson', 'AMI', 'Constant'}
 
 
@@ -118,7 +121,10 @@ def _coded(values):
 
 
 class Monitors:
-    def __init__(self, sim, spec, wl, cli):
+    def __init__(self, sim, spec, wl, cli, shared=None, run_index=0):
+        shared = shared if shared is not None else {}
+        self.shared = shared
+        self.run_index = run_index
         self.sim = sim
         self.spec = spec
         self.wl = wl
@@ -129,7 +135,11 @@ class Monitors:
         self.probes = {}
         self.batches_rows = []         # rows of each compute_batch_ranking call
         self.batch_triplets = []       # triplets returned per batch
-        self.sampler_model = sampler.SamplerModel()
+        # process-global state outlives a task: the sampler's counter and the statistics storages of a long-lived
+        # interpreter keep what earlier tasks of the same process fed them
+        self.sampler_model = shared.setdefault('sampler_model', sampler.SamplerModel())
+        self.col_prev = shared.setdefault('col_prev', {})
+        self.task_sampler_model = sampler.SamplerModel()      # reading 'counts per task' (a code base may reset the counter per run)
         self.sampler_calls = 0
         self.log = _LogProxy()
         self.expected = streaming.batches(wl['lines'], cli['subsampling'], cli['minibatch_size'])
@@ -153,16 +163,39 @@ class Monitors:
 
     def violate(self, prop, cls, detail):
         if len(self.violations) < 20:
+            if self.run_index:
+                detail = dict(detail, task_number_in_process=self.run_index + 1)
             self.violations.append({'property': prop, 'class': cls, 'detail': detail})
+
+    def history(self, j, col, rows=None):
+        """All values column `col` has shown to the statistics of this PROCESS: earlier tasks + this one."""
+        rows = rows if rows is not None else [r for b in self.batches_rows for r in b]
+        return self.col_prev.get(col, []) + [r[j] for r in rows]
+
+    def histories(self, j, col, rows=None):
+        """The statement does not say whether 'the consumed rows' of a second task in a long-lived interpreter are those of
+        the task or of the process; both readings are accepted (the check fails only if the code matches neither)."""
+        rows = rows if rows is not None else [r for b in self.batches_rows for r in b]
+        cur = [r[j] for r in rows]
+        prev = self.col_prev.get(col, [])
+        return [prev + cur, cur] if prev else [cur]
+
+    def end_of_task(self):
+        focus = self.cli.get('feature_set_focus')
+        keep = None if not focus else set(focus.split(',')) | {self.cli['label_column']}
+        rows = [r for b in self.batches_rows for r in b]
+        for j, col in enumerate(self.wl['header']):
+            if keep is None or col in keep:
+                self.col_prev[col] = self.col_prev.get(col, []) + [r[j] for r in rows]
 
     # ------------------------------------------------------------------------------ install
     def install(self):
         m = self
         cr = core_ranking
-        orig_cbr = cr.compute_batch_ranking
-        orig_mrg = cr.mixed_rank_graph
-        orig_pcs = cr.prior_combinations_sample
-        orig_eim = cr.estimate_importances_minibatches
+        orig_cbr = _PRISTINE['compute_batch_ranking']
+        orig_mrg = _PRISTINE['mixed_rank_graph']
+        orig_pcs = _PRISTINE['prior_combinations_sample']
+        orig_eim = _PRISTINE['estimate_importances_minibatches']
 
         # the wrappers are signature-transparent (*a, **kw): a refactoring that adds a parameter to one of the
         # monitored functions must not look like a defect of the code under test
@@ -274,13 +307,14 @@ class Monitors:
         for j, col in enumerate(header):
             if focus and col not in set(focus.split(',')) | {self.cli['label_column']}:
                 continue
-            vals = [r[j] for r in rows]
+            cands = self.histories(j, col, rows)
+            vals = cands[0]
             sk = core_ranking.GLOBAL_CARDINALITY_STORAGE.get(col)
             exact = stats.distinct_nonempty(vals)
             if sk is None:
                 self.violate('C13', 'no-sketch', {'column': col})
                 continue
-            if len(sk) != exact and exact <= 2 ** 17:
+            if not any(len(sk) == stats.distinct_nonempty(h) for h in cands) and exact <= 2 ** 17:
                 hashed = len({core_ranking.internal_hash(v) for v in vals if v})
                 if hashed == len(sk) and exact - hashed <= max(1, exact * exact // 2 ** 30):
                     self.probe('hash32_collision_explained')
@@ -292,18 +326,22 @@ class Monitors:
                 self.violate('C13', 'coverage-batch', {'column': col, 'got': cov, 'exact': expc, 'batch': len(self.batches_rows) - 1})
             cnt = core_ranking.GLOBAL_COUNTS_STORAGE.get(col)
             bound = self.cli['max_unique_hist_constraint']
-            model = stats.BoundedCounter(bound)
-            for v in vals:
-                model.add(v)
-            if cnt is None or dict(cnt.default_counter) != dict(model.c):
+            models = []
+            for h in cands:
+                model = stats.BoundedCounter(bound)
+                for v in h:
+                    model.add(v)
+                models.append(model)
+            if cnt is None or not any(dict(cnt.default_counter) == dict(mm.c) for mm in models):
                 self.violate('C13', 'value-counter-running', {'column': col, 'batches': len(self.batches_rows),
                                                                'got_size': None if cnt is None else len(cnt.default_counter), 'model_size': len(model.c)})
         if self.cli['task'] == 'identify_rare_values':
             thr = self.cli['rare_value_count_upper_bound']
-            by_col = {col: [r[j] for r in rows] for j, col in enumerate(header)}
+            by_col = {col: self.history(j, col, rows) for j, col in enumerate(header)}
             exp = stats.rare_values(by_col, thr)
+            exp_task = stats.rare_values({col: [r[j] for r in rows] for j, col in enumerate(header)}, thr)
             got = dict(core_ranking.GLOBAL_RARE_VALUE_STORAGE)
-            if got != exp:
+            if got != exp and got != exp_task:
                 diff = sorted(set(got.items()) ^ set(exp.items()), key=repr)[:6]
                 self.violate('C13', 'rare-values-running', {'threshold': thr, 'batches': len(self.batches_rows), 'difference': diff})
 
@@ -453,13 +491,18 @@ class Monitors:
                 self.sampler_model.counts[r] += 1
             return
         problems = self.sampler_model.check_call(cand, cap, returned)
+        problems_task = self.task_sampler_model.check_call(cand, cap, returned) if self.run_index else problems
+        if problems and not problems_task:
+            problems = []
         if cap < len(cand):
             self.probe('c07_cap_binding_calls')
         for p in problems:
             self.violate('C07', 'sampler-call', {'problem': p, 'call': self.sampler_calls, 'cap': cap, 'candidates': len(cand), 'returned': len(returned)})
         actual = dict(core_ranking.GLOBAL_PRIOR_COMB_COUNTS)
         model = {k: v for k, v in self.sampler_model.counts.items()}
-        if {k: v for k, v in actual.items() if v} != {k: v for k, v in model.items() if v}:
+        model_task = {k: v for k, v in self.task_sampler_model.counts.items() if v} if self.run_index else None
+        nz = {k: v for k, v in actual.items() if v}
+        if nz != {k: v for k, v in model.items() if v} and nz != model_task:
             bad = next(k for k in set(actual) | set(model) if actual.get(k, 0) != model.get(k, 0))
             self.violate('C07', 'counter-drift', {'combination': list(bad), 'counter': actual.get(bad, 0), 'selections': model.get(bad, 0), 'call': self.sampler_calls})
 
@@ -529,11 +572,12 @@ class Monitors:
             if plain not in header:
                 continue
             j = header.index(plain)
-            exact = stats.distinct_nonempty([r[j] for r in rows])
+            exact = stats.distinct_nonempty(self.history(j, plain, rows))
+            exact_any = {stats.distinct_nonempty(h) for h in self.histories(j, plain, rows)}
             per_batch = [stats.coverage(b, len(header), missing)[j] for b in self.batches_rows]
             expcov = stats.annotation_coverage(per_batch)
-            if card != exact:
-                vals = [r[j] for r in rows]
+            if card not in exact_any:
+                vals = self.history(j, plain, rows)
                 hashed = len({core_ranking.internal_hash(v) for v in vals if v})
                 if hashed == card and exact - hashed <= max(1, exact * exact // 2 ** 30):
                     self.probe('hash32_collision_explained')
@@ -558,18 +602,20 @@ class Monitors:
                 if not self.cli.get('feature_set_focus'):
                     self.violate('C13', 'histogram-missing-column', {'column': col})
                 continue
-            vals = [r[j] for r in rows]
-            if len(set(vals)) >= bound:
-                model = stats.BoundedCounter(bound)
-                for v in vals:
-                    model.add(v)
-                counts = model.c
-                self.probe('counter_bound_reached')
-            else:
-                from collections import Counter
-                counts = Counter(vals)
-            exp = {str(k): v for k, v in stats.repetition_histogram(counts).items()}
-            if {str(k): v for k, v in got[col].items()} != exp:
+            exps = []
+            for vals in self.histories(j, col, rows):
+                if len(set(vals)) >= bound:
+                    model = stats.BoundedCounter(bound)
+                    for v in vals:
+                        model.add(v)
+                    counts = model.c
+                    self.probe('counter_bound_reached')
+                else:
+                    from collections import Counter
+                    counts = Counter(vals)
+                exps.append({str(k): v for k, v in stats.repetition_histogram(counts).items()})
+            exp = exps[0]
+            if {str(k): v for k, v in got[col].items()} not in exps:
                 self.violate('C13', 'value-repetitions', {'column': col, 'written': got[col], 'exact': exp})
             self.probe('histograms_checked')
 
@@ -578,7 +624,8 @@ class Monitors:
         header = self.wl['header']
         rows = [r for b in self.batches_rows for r in b]
         thr = self.cli['rare_value_count_upper_bound']
-        exp = stats.rare_values({col: [r[j] for r in rows] for j, col in enumerate(header)}, thr)
+        exp = stats.rare_values({col: self.history(j, col, rows) for j, col in enumerate(header)}, thr)
+        exp_task = stats.rare_values({col: [r[j] for r in rows] for j, col in enumerate(header)}, thr)
         if not os.path.exists(p):
             self.violate('C13', 'no-rare-report', {'expected_entries': len(exp)})
             return
@@ -596,7 +643,7 @@ class Monitors:
                     self.violate('C13', 'rare-report-duplicate-row', {'row': r, 'threshold': thr})
                     return
                 got[(r[0], r[1])] = c
-        if got != exp:
+        if got != exp and got != exp_task:
             diff = sorted(set(got.items()) ^ set(exp.items()), key=repr)[:6]
             self.violate('C13', 'rare-report', {'threshold': thr, 'difference': diff, 'written': len(got), 'exact': len(exp)})
         self.probe('rare_reports_checked')
@@ -611,7 +658,8 @@ class Monitors:
         exp = {str(k): v for k, v in self.sampler_model.counts.items()}
         g = {k: v for k, v in got.items() if v}
         e = {k: v for k, v in exp.items() if v}
-        if g != e:
+        e_task = {str(k): v for k, v in self.task_sampler_model.counts.items() if v} if self.run_index else None
+        if g != e and g != e_task:
             bad = next(k for k in set(g) | set(e) if g.get(k) != e.get(k))
             self.violate('C07', 'counts-json', {'combination': bad, 'reported': g.get(bad), 'selections': e.get(bad)})
         self.probe('counts_json_checked')
@@ -652,7 +700,8 @@ def simulated_process(spec, phase, root):
         sim.crash_at = (phase['crash'][0], int(phase['crash'][1]))
     fscfg = spec.get('fs', {})
     fs = simfs.SimFS(sim, root, write_through=fscfg.get('write_through', True), short_reads=fscfg.get('short_reads', False))
-    mon = Monitors(sim, spec, wl, cli)
+    shared = {}
+    mon = Monitors(sim, spec, wl, cli, shared=shared)
     pools = []
 
     def _on_close(path):
@@ -750,7 +799,49 @@ def simulated_process(spec, phase, root):
                 files[f] = hashlib.blake2b(fh.read(), digest_size=8).hexdigest()
     extra['files'] = files
     extra['ckpt_left'] = os.path.exists(os.path.join(work, CKPT))
-    return collect(status, extra)
+    first = collect(status, extra)
+    # ---- a long-lived interpreter: further tasks in the SAME simulated process (process-global state carried over)
+    later = []
+    for ri, more in enumerate(spec.get('more_runs') or [], start=1):
+        if status in ('stuck', 'crashed-unwound') or 'final_check_error' in extra:
+            break
+        mon.end_of_task()
+        wl2 = more.get('workload') or wl
+        cli2 = dict(cli)
+        cli2.update(more.get('cli', {}))
+        mon = Monitors(sim, spec, wl2, cli2, shared=shared, run_index=ri)
+        mon.install()
+        fs.install()
+        argv2 = build_argv(cli2, os.path.join(root, more.get('data_dir', 'data')))
+        argv2[argv2.index('--output_folder') + 1] = f'out{ri}'
+        sys.argv = argv2
+        st2, ex2 = 'completed', {}
+        try:
+            outrank_main.main()
+        except SystemExit as e:
+            st2 = 'exit'
+        except SimStuck as e:
+            st2 = 'stuck'
+            ex2['error'] = str(e)
+        except BaseException:  # noqa: BLE001
+            st2 = 'exception'
+            ex2['trace'] = traceback.format_exc()[-2500:]
+        finally:
+            sys.argv = old_argv
+            fs.uninstall()
+        try:
+            ex2.update(mon.final_checks(os.path.join(work, f'out{ri}'), st2))
+        except BaseException:  # noqa: BLE001
+            ex2['final_check_error'] = traceback.format_exc()[-1500:]
+        later.append(dict(ex2, status=st2, violations=mon.violations, probes=mon.probes, stream_returned=mon.stream_returned,
+                          expected_batches=len(mon.expected['batches']), batches=len(mon.batches_rows), cli=more.get('cli', {})))
+        status = st2 if st2 == 'stuck' else status
+    if later:
+        first['later_runs'] = later
+        first['digest'] = sim.trace.digest()
+        first['sim_now'] = sim.now
+        first['ranks_all'] = [first.get('ranks')] + [l.get('ranks') for l in later]
+    return first
 
 
 def inspect_disk(root):
@@ -819,6 +910,15 @@ def job_run(job):
         if a['workload'].get('source') == 'ob-csv':
             with open(os.path.join(root, 'data', 'dataset_desc.json'), 'w') as fh:
                 fh.write(wlmod.dataset_desc(a['workload']))
+        for ri, more in enumerate(a.get('more_runs') or [], start=1):
+            if more.get('workload'):
+                more['data_dir'] = f'data{ri}'
+                os.makedirs(os.path.join(root, more['data_dir']))
+                with open(os.path.join(root, more['data_dir'], 'data.csv'), 'wb') as fh:
+                    fh.write(wlmod.render(more['workload']))
+                if more['workload'].get('source') == 'ob-csv':
+                    with open(os.path.join(root, more['data_dir'], 'dataset_desc.json'), 'w') as fh:
+                        fh.write(wlmod.dataset_desc(more['workload']))
         if a.get('dirty_files'):
             os.makedirs(os.path.join(root, 'work', 'out'), exist_ok=True)
             for rel, content in a['dirty_files'].items():
